@@ -7,7 +7,7 @@ import CobyqaVerif.Alg.Oracle
 `while k < count_nonzero(free_bd)` loop, statement by statement, over an ordered field:
 
 * vectors are functions `Fin n → K`; an infinite bound is `none`;
-* the three floating-point thresholds of the code are parameters (`descThr g ≥ 0` for `10 eps n max(1, |g|)`,
+* the three floating-point thresholds of the code are parameters (`descThr g ≥ 0` for `10 eps n max(1, |g_free|)`,
   `tiny ≥ 0` for `TINY`, `rtol ≥ 0` for `1e-8`), so the theorems hold for the code's values and for any others;
 * `_alpha_tr` (a square root) is a parameter `aTr` with its specification: any step length up to `aTr step sd` keeps
   the iterate in the ball; `none` is the `ZeroDivisionError` exit;
@@ -132,7 +132,8 @@ def alpha0Of (Q : Params n K) (aTr gradSd curvSd : K) : K :=
 with this state (`break`, or `boundary_reached`) -/
 def iter (P : Prob n K) (Q : Params n K) (s : St n K) : St n K ⊕ St n K :=
   let gradSd := s.grad ⬝ᵥ s.sd
-  if gradSd ≥ -Q.descThr s.grad then .inr s else
+  -- `10 eps n max(1, norm(grad[free_bd]))`: the threshold sees the free components only
+  if gradSd ≥ -Q.descThr (fun i => if s.free i then s.grad i else 0) then .inr s else
   match Q.aTr s.step s.sd with
   | none => .inr s
   | some aTr =>
